@@ -69,6 +69,23 @@ def getBits {w} (x : BitVec w) (lo hi : Nat) : BitVec w :=
 def setBits {w} (x : BitVec w) (lo hi : Nat) (v : BitVec w) : R (BitVec w) :=
   bif (v &&& ~~~fieldMask w lo hi) == 0 then .ok ((x &&& ~~~(fieldMask w lo hi <<< lo)) ||| (v <<< lo)) else .panic
 
+/-- `x.get_bits(r)` with a `Range<usize>` computed at run time (`bit_field` 0.10: the three range assertions,
+then "shift away high bits", "shift away low bits"). -/
+def getBitsDyn {w} (x : BitVec w) (lo hi : BitVec 64) : R (BitVec w) :=
+  bif BitVec.ult lo (BitVec.ofNat 64 w) && BitVec.ule hi (BitVec.ofNat 64 w) && BitVec.ult lo hi then
+    .ok (((x <<< (BitVec.ofNat 64 w - hi)) >>> (BitVec.ofNat 64 w - hi)) >>> lo)
+  else .panic
+
+/-- `x.set_bits(r, v)` with a range computed at run time: the same assertions, "value does not fit into bit
+range", then the source's bitmask expression. -/
+def setBitsDyn {w} (x : BitVec w) (lo hi : BitVec 64) (v : BitVec w) : R (BitVec w) :=
+  bif BitVec.ult lo (BitVec.ofNat 64 w) && BitVec.ule hi (BitVec.ofNat 64 w) && BitVec.ult lo hi then
+    bif ((v <<< (BitVec.ofNat 64 w - (hi - lo))) >>> (BitVec.ofNat 64 w - (hi - lo))) == v then
+      .ok ((x &&& ~~~((((BitVec.allOnes w <<< (BitVec.ofNat 64 w - hi)) >>> (BitVec.ofNat 64 w - hi)) >>> lo) <<< lo))
+        ||| (v <<< lo))
+    else .panic
+  else .panic
+
 /-- `x.get_bit(i)`. -/
 def getBit {w} (x : BitVec w) (i : Nat) : Bool := x.getLsbD i
 
